@@ -20,6 +20,8 @@ class Gram:
         self.labctr = 0
         self.tags = set()   # features: "state","lr","throw","blocks", ...
         self.maydiverge = False
+        self.idents = None  # custom rule identifiers (C04); default G<gi>_R<i>
+        self.recv = "c"     # receiver name used inside the code blocks
 
     # ---- construction -------------------------------------------------
     def mk(self, **kw):
@@ -89,6 +91,8 @@ class Gram:
 
     # ---- names ----------------------------------------------------------
     def rname(self, i):
+        if self.idents:
+            return self.idents[i - 1]
         return "G%d_R%d" % (self.gi, i)
 
     def sname(self):
@@ -217,11 +221,11 @@ class Gram:
         if k == "choice":
             return par(" / ".join(self.render(c, 1) for c in n["kids"]))
         if k == "action":
-            return par(self.render(n["kids"][0], 2) + " { return act(c, %d, []any{%s}) }" % (n["blk"], a))
+            return par(self.render(n["kids"][0], 2) + " { return act(%s, %d, []any{%s}) }" % (self.recv, n["blk"], a))
         if k == "state":
-            return "#{ return st(c, %d, []any{%s}) }" % (n["blk"], a)
+            return "#{ return st(%s, %d, []any{%s}) }" % (self.recv, n["blk"], a)
         if k in ("andcode", "notcode"):
-            return ("&" if k == "andcode" else "!") + "{ return pr(c, %d, []any{%s}) }" % (n["blk"], a)
+            return ("&" if k == "andcode" else "!") + "{ return pr(%s, %d, []any{%s}) }" % (self.recv, n["blk"], a)
         if k == "label":
             return par(n["lab"] + ":" + self.render(n["kids"][0], 4))
         if k in ("and", "not"):
@@ -235,7 +239,7 @@ class Gram:
         raise ValueError(k)
 
     def render_rules(self):
-        out = ["%s <- v:%s { return top(c, v) }\n" % (self.sname(), self.rname(1))]
+        out = ["%s <- v:%s { return top(%s, v) }\n" % (self.sname(), self.rname(1), self.recv)]
         for i, root in enumerate(self.rules):
             d = self.disp[i] if i < len(self.disp) else ""
             out.append("%s%s <- %s\n" % (self.rname(i + 1), (' "%s"' % d) if d else "", self.render(root, -1)))
@@ -244,7 +248,8 @@ class Gram:
     def to_case(self):
         names = [self.errname(i + 1) for i in range(len(self.rules))]
         lr = list(self.lr) + [0] * (len(self.rules) - len(self.lr))
-        return dict(gi=self.gi, nodes=self.nodes, rules=self.rules, names=names, lr=lr)
+        return dict(gi=self.gi, nodes=self.nodes, rules=self.rules, names=names, lr=lr,
+                    idents=[self.rname(i + 1) for i in range(len(self.rules))])
 
     def text(self):
         return self.render_rules()
